@@ -76,12 +76,23 @@ def gen_cyclic(rng, kind):
     # a monotone ring of 3-4 blocks: x0 = x1 op i, x1 = x2 op j, ..., x_{k-1} = x0 op l; converging needs up to k sweeps,
     # so a watch list that misses one of the variables returns an unstable state for some inputs
     k = rng.randint(3, 4)
-    xs = [d.new_sig('', f'x{i}', w, 'wire') for i in range(k)]
+    # names with prefix relations on purpose (x / x2 / x2b ...): the watch-list construction sorts and compares reprs
+    pool = rng.choice([['x', 'x2', 'x2b', 'xx'], ['a', 'ab', 'abc', 'b'], ['y', 'y1', 'y10', 'y2'], ['x0', 'x1', 'x2', 'x3']])
+    rng.shuffle(pool)
+    xs = [d.new_sig('', pool[i], w, 'wire') for i in range(k)]
     op = rng.choice(['or', 'and'])
     ins = [i0, i1, d.new_sig('', 'in2', w, 'in'), d.new_sig('', 'in3', w, 'in')]
+    # optionally an upstream block whose output every ring block reads: then every ring block is a BFS root of the
+    # intra-SCC order and the sweep order is by block name, possibly against the data flow
+    up = None
+    if rng.random() < 0.5:
+      up = d.new_sig('', 'en', w, 'wire')
+      blk([((up.idx, 0, w), ('b', 'or', w, R(i0), ('c', w, (1 << w) - 1)))])
     order = list(range(k)); rng.shuffle(order)
     for i in order:
-      blk([((xs[i].idx, 0, w), ('b', op, w, R(xs[(i + 1) % k]), R(ins[i])))])
+      e = ('b', op, w, R(xs[(i + 1) % k]), R(ins[i]))
+      if up is not None: e = ('b', 'and', w, e, R(up))
+      blk([((xs[i].idx, 0, w), e)])
     blk([((out.idx, 0, w), R(xs[0]))])
     expect = 'value'
   elif kind == 'div':
